@@ -639,24 +639,33 @@ class Polyhedron(Shape3D):
         max_attempts = 10
         attempt = 0
         current_rotation = [1, 0, 0, 0]
-        vertices = self.vertices
+        # miniball compares squared distances against an absolute tolerance,
+        # so it is given a copy of the vertices centered and scaled to unit size.
+        offset = np.mean(self.vertices, axis=0)
+        scale = np.max(np.abs(self.vertices - offset))
+        normalized_vertices = (self.vertices - offset) / scale
+        vertices = normalized_vertices
         while attempt < max_attempts:
             attempt += 1
             try:
                 center, r2 = miniball.get_bounding_ball(vertices)
+                # For nearly degenerate support sets miniball can return a ball
+                # that misses a vertex; such a result counts as a failed attempt.
+                if np.any(np.sum((vertices - center) ** 2, axis=1) > r2 + 1e-7):
+                    raise np.linalg.LinAlgError
                 break
             except np.linalg.LinAlgError:
                 # Always rotate the original vertices, so that undoing the last
                 # rotation below recovers the original frame.
                 current_rotation = rowan.random.rand(1)
-                vertices = rowan.rotate(current_rotation, self.vertices)
+                vertices = rowan.rotate(current_rotation, normalized_vertices)
         else:
             raise RuntimeError("Unable to solve for a bounding sphere.")
 
         # The center must be rotated back to undo any rotation.
         center = rowan.rotate(rowan.conjugate(current_rotation), center)
 
-        return Sphere(np.sqrt(r2), center)
+        return Sphere(np.sqrt(r2) * scale, center * scale + offset)
 
     @property
     def circumsphere(self):
